@@ -185,11 +185,11 @@ def run(rep, tier, rng):
     # ---- E-run: items that reach the attribute macro with macro_rules! fragments inside (invisible groups cannot be written
     # as text, so the in-process expansion never sees them): the re-emitted item must still mean what was written.
     # Twin = the same definitions in the same macro without the attribute.
-    body1 = ("$(#[$m])* #[repr(u8)] pub enum E { $(#[$m])* A = $e, B = 2 * $e }\n $(#[$m])* pub struct S($(#[$m])* pub [u8; 2 * $e]);\n"
+    body1 = ("$(#[$m])* #[repr(u8)] pub enum E { $(#[$m])* A = $e, B = 2 * $e, C = $o << 4, D = $o >> 1 & 1 }\n $(#[$m])* pub struct S($(#[$m])* pub [u8; 2 * $e], pub [u8; $o << 1]);\n"
              " #[derive(Clone)] pub struct I(pub u8);\n impl ::core::ops::Add for I { type Output = I; fn add(self, r: I) -> I { I(self.0 + r.0 + 2 * $e) } }\n"
-             " pub fn obs() -> ::std::string::String { format!(\"{} {} {} {}\", E::A as u8, E::B as u8, ::core::mem::size_of::<S>(), (I(1) + I(1)).0) }")
-    body2 = (" pub struct P<'a>(pub &'a $t, pub ::std::boxed::Box<$t>);\n pub struct Q<$l>(pub &$l $t, pub ::core::option::Option<&$l mut $t>);\n"
-             " pub fn obs() -> ::std::string::String { let p = P(&1u8, ::std::boxed::Box::new(2u8)); let q = Q(&3u8, None); format!(\"{:?} {:?} {:?} {}\", p.0, p.1, q.0, q.1.is_none()) }")
+             " pub fn obs() -> ::std::string::String { format!(\"{} {} {} {} {} {}\", E::A as u8, E::B as u8, E::C as u8, E::D as u8, ::core::mem::size_of::<S>(), (I(1) + I(1)).0) }")
+    body2 = (" pub struct P<'a>(pub &'a $t, pub ::std::boxed::Box<$t>);\n pub struct Q<$l>(pub &$l $t, pub ::core::option::Option<&$l mut $t>, pub &$l $u);\n"
+             " pub fn obs() -> ::std::string::String { let p = P(&1u8, ::std::boxed::Box::new(2u8)); let q = Q(&3u8, None, &4u8); format!(\"{:?} {:?} {:?} {}\", p.0, p.1, q.0, q.1.is_none()) }")
     fcases = []
     for body, kws, attr_sets in ((body1, ("$(#[$m])* #[repr(u8)] pub enum E", "$(#[$m])* pub struct S", "impl ::core::ops::Add for I"),
                                   (("Clone", "Clone", "AddAssign"), ("", "", "AddAssign"), ("Clone, Debug", "Default", "AddAssign"))),
@@ -199,8 +199,8 @@ def run(rep, tier, rng):
             for kw, a in zip(kws, attrs):
                 marked = marked.replace(kw, (f"#[::derive_ex::derive_ex({a})] " if a else "#[::derive_ex::derive_ex] ") + kw, 1)
             for inner, kind in ((marked, "case"), (body, "ctl")):
-                code = ("macro_rules! mk { ($e:expr, $t:ty, $l:lifetime, $(#[$m:meta])*) => { pub mod dx { " + inner + " } pub mod tw { " + body + " } } }\n"
-                        "mk!(1 + 2, dyn ::core::fmt::Debug + Send, 'q, #[doc = \"forwarded\"] #[allow(dead_code)] #[cfg(all())]);\n"
+                code = ("macro_rules! mk { ($e:expr, $o:expr, $t:ty, $u:ty, $l:lifetime, $(#[$m:meta])*) => { pub mod dx { " + inner + " } pub mod tw { " + body + " } } }\n"
+                        "mk!(1 + 2, 1 | 2, dyn ::core::fmt::Debug + Send, dyn ::core::fmt::Debug + 'q, 'q, #[doc = \"forwarded\"] #[allow(dead_code)] #[cfg(all())]);\n"
                         'pub fn run() { ::dxrt::ev!("frag", "got" => dx::obs(), "want" => tw::obs()); }')
                 fcases.append(C.Case(f"f{len(fcases)}", code, {"attrs": attrs, "kind": kind}))
     ctls = [c for c in fcases if c.meta["kind"] == "ctl"]
